@@ -479,6 +479,12 @@ def run_tyrving(mon, ctx, job, rnd):
             for name, p in (forms_time(n) if kind == 'race' else forms_len(n))[:2]:
                 attach.call(f, g, age, sp, p)
                 ctx.count('eval.decorated-spelling')
+            if kind == 'race':
+                # a hand-timed text under a decorated spelling of the key: hand timing is a matter of the mark, not of how the
+                # event code was typed
+                t = n - n % 10
+                attach.call(f, g, age, sp, '%d.%d' % (t // 100, (t % 100) // 10))
+                ctx.count('eval.decorated-spelling-hand-timed')
 
 
 def qkids_jobs(mon):
